@@ -11,6 +11,7 @@
            | (-1) when the implementation panics (recordsCount = 0).
     input  (1 blk_epoch bfl key attempt off size seed)  record codec case, see RecordCodec. *)
 From BBS Require Import Common.Sx Generated.Consts Index.Klm Index.KlmFnv Index.RecordCodec.
+(* -- (keeps lib/checklib.py's dependency scan from reading past the sentence) *)
 Open Scope Z_scope.
 
 Definition dec_key (s : sx) : bkey := sx_Ns s.
